@@ -33,8 +33,9 @@ namespace detail
 		GLM_FUNC_QUALIFIER vec<2, T, Q> operator ()()  const { return vec<2, T, Q>(this->elem(E0), this->elem(E1)); }
 	};
 
-	template<typename T, qualifier Q, int E0, int E1, int E2>
-	struct _swizzle_base1<3, T, Q, E0,E1,E2,3, false> : public _swizzle_base0<T, 3>
+	// E3 is only padding for 3-component swizzles (3 for vec3/vec4 sources, -1 for vec2 sources)
+	template<typename T, qualifier Q, int E0, int E1, int E2, int E3>
+	struct _swizzle_base1<3, T, Q, E0,E1,E2,E3, false> : public _swizzle_base0<T, 3>
 	{
 		GLM_FUNC_QUALIFIER vec<3, T, Q> operator ()()  const { return vec<3, T, Q>(this->elem(E0), this->elem(E1), this->elem(E2)); }
 	};
@@ -160,9 +161,10 @@ namespace detail
 	};
 
 	template<int N, typename T, qualifier Q, int E0, int E1, int E2, int E3>
-	struct _swizzle : public _swizzle_base2<N, T, Q, E0, E1, E2, E3, (E0 == E1 || E0 == E2 || E0 == E3 || E1 == E2 || E1 == E3 || E2 == E3)>
+	struct _swizzle : public _swizzle_base2<N, T, Q, E0, E1, E2, E3, (E0 == E1 || (N > 2 && (E0 == E2 || E1 == E2)) || (N > 3 && (E0 == E3 || E1 == E3 || E2 == E3)))>
 	{
-		typedef _swizzle_base2<N, T, Q, E0, E1, E2, E3, (E0 == E1 || E0 == E2 || E0 == E3 || E1 == E2 || E1 == E3 || E2 == E3)> base_type;
+		// only the first N indices name components: the padding indices must not make a swizzle read-only (vec4.xyw)
+		typedef _swizzle_base2<N, T, Q, E0, E1, E2, E3, (E0 == E1 || (N > 2 && (E0 == E2 || E1 == E2)) || (N > 3 && (E0 == E3 || E1 == E3 || E2 == E3)))> base_type;
 
 		using base_type::operator=;
 
